@@ -1,0 +1,26 @@
+//go:build verif
+
+package mq
+
+import "io"
+
+// Exported wrappers around the unexported variable byte integer
+// codec. Compiled only with the build tag verif; used by the
+// verification harness to enumerate the codec without building
+// frames around each value.
+
+func VerifVbintFill(v uint, buf []byte, i int) int { return vbint(v).fill(buf, i) }
+
+func VerifVbintWidth(v uint) int { return vbint(v).width() }
+
+func VerifVbintUnmarshal(data []byte) (uint, error) {
+	var v vbint
+	err := v.UnmarshalBinary(data)
+	return uint(v), err
+}
+
+func VerifVbintReadFrom(r io.Reader) (uint, int64, error) {
+	var v vbint
+	n, err := v.ReadFrom(r)
+	return uint(v), n, err
+}
